@@ -268,6 +268,61 @@ fn consistency_pairs(a: &Item, st: &mut Stats) {
     }
 }
 
+/// G32 - boundary-shift twins: the value with one character moved across the boundary between two
+/// adjacent variants (`...-baaaa-cccccc` / `...-baaaac-ccccc`) or two adjacent private tags. The two
+/// values are different and their texts without separators coincide: a rendering that loses a
+/// separator somewhere (chunked buffers, long values) prints them alike. Both go through the
+/// ordinary pair clauses (== iff same string, hash, cmp).
+fn shift_twins(a: &Item, st: &mut Stats) {
+    if !a.loc.extensions.other.is_empty() {
+        return;
+    }
+    let o = obs::obs_locale(&a.loc);
+    let base = values::Parts { lang: o.id.language.clone().unwrap_or("und".into()), script: o.id.script.clone(), region: o.id.region.clone(), variants: o.id.variants.clone(), ext: if a.e_s.is_empty() { None } else { Some(a.e_s.clone()) } };
+    let mut twins: Vec<values::Parts> = vec![];
+    let vs = &o.id.variants;
+    for i in 0..vs.len().saturating_sub(1) {
+        if vs[i].len() < 8 && vs[i + 1].len() > 5 {
+            let mut p = base.clone();
+            p.variants[i] = format!("{}{}", vs[i], &vs[i + 1][..1]);
+            p.variants[i + 1] = vs[i + 1][1..].to_string();
+            twins.push(p);
+        }
+        if vs[i].len() > 5 && vs[i + 1].len() < 8 {
+            let mut p = base.clone();
+            p.variants[i] = vs[i][..vs[i].len() - 1].to_string();
+            p.variants[i + 1] = format!("{}{}", &vs[i][vs[i].len() - 1..], vs[i + 1]);
+            twins.push(p);
+        }
+    }
+    // private tags (always last in the text): ...-x-ab-cde / ...-x-abc-de
+    let tags = &o.private;
+    if tags.len() >= 2 {
+        if let Some(cut) = a.e_s.rfind("-x-") {
+            for i in 0..tags.len() - 1 {
+                if tags[i].len() < 8 && tags[i + 1].len() > 1 {
+                    let mut t = tags.clone();
+                    t[i] = format!("{}{}", tags[i], &tags[i + 1][..1]);
+                    t[i + 1] = tags[i + 1][1..].to_string();
+                    let mut p = base.clone();
+                    p.ext = Some(format!("{}-x-{}", &a.e_s[..cut], t.join("-")));
+                    twins.push(p);
+                }
+            }
+        }
+    }
+    for p in twins.into_iter().take(6) {
+        let Ok(Some(loc)) = guard(|| values::build_parts(&p)) else {
+            st.class("shift twin not accepted (skipped)");
+            continue;
+        };
+        let tw = item(loc, values::parts_case(&p));
+        st.class(if a.s.len() > 64 { "shift twin of a value printing more than 64 bytes" } else { "shift twin" });
+        check_pair(a, &tw, st, Count::No);
+        check_pair(&tw, a, st, Count::No);
+    }
+}
+
 fn replay_consistency(case: &Value, st: &mut Stats) {
     if let Some(a) = values::value_from_case(&case["a"]) {
         let ia = item(a, case["a"].clone());
@@ -369,6 +424,13 @@ pub fn run(cfg: &Cfg) -> Stats {
         let s = par_range(nn, |i, st| consistency_pairs(&items[i as usize], st));
         total = total.merge(s);
         total.subspace("consistency of ==, hash and cmp for present-but-empty variant lists and hand-filled `other` fields (5 pairs per collected value)", nn * 5, true);
+    }
+    // 2d. boundary-shift twins (G32)
+    {
+        let nn = items.len() as u64;
+        let s = par_range(nn, |i, st| shift_twins(&items[i as usize], st));
+        total = total.merge(s);
+        total.subspace("boundary-shift twins: every collected value against the values with one character moved between two adjacent variants / private tags (up to 6 per value)", nn, true);
     }
     // 3. cross-pool pairs: a strided sample so that far-apart values meet too
     let n = items.len();
